@@ -29,6 +29,13 @@ FI_TREES = {
     "FIN": (["strat", "strat", "cpsec", "fisec", "cpsec"], [1, 1, 2, 2, 1], ["r", "k", "a", "b", "c"]),
 }
 TREES.update(FI_TREES)
+# market-value strategies holding coupon-paying / hedge securities (carry is swept
+# into a capital-weighted strategy's cash; it is performance, not a flow)
+MC_TREES = {
+    "MC3": (["strat", "cpsec", "sec"], [1, 1, 1], ["r", "a", "b"]),
+    "MCN": (["strat", "strat", "cpsec", "sec", "cphedge"], [1, 1, 2, 2, 1], ["r", "k", "a", "b", "h"]),
+}
+TREES.update(MC_TREES)
 
 COMMS = {
     "zero": {"k": "zero", "a": Z, "b": Z},
@@ -65,10 +72,10 @@ def price_path(rng, T, kind="walk"):
     return out
 
 
-GEN_KEYS = ("nops", "capital", "p_defer", "p_redundant", "allow_illformed", "fund_subs", "p_unsettled", "p_flow", "p_custom", "same_sec", "leverage")
+GEN_KEYS = ("nops", "capital", "p_defer", "p_redundant", "allow_illformed", "fund_subs", "p_unsettled", "p_flow", "p_custom", "same_sec", "leverage", "daytrade", "zero_outlay")
 
 
-def make_C(rng, tree=None, T=4, comm=None, spread=None, integer=True, mults=(1, 1, 1, 2, 5), late=False, D=50000, crash=False, bidoffer=None, delist=False):
+def make_C(rng, tree=None, T=4, comm=None, spread=None, integer=True, mults=(1, 1, 1, 2, 5), late=False, D=50000, crash=False, bidoffer=None, delist=False, zerodip=False, penny=False):
     tree = tree or rng.choice(list(TREES))
     kinds, par, names = TREES[tree]
     N = len(kinds)
@@ -89,6 +96,16 @@ def make_C(rng, tree=None, T=4, comm=None, spread=None, integer=True, mults=(1, 
             if crash and rng.random() < 0.5:
                 k = rng.randint(1, T - 1)
                 path = path[:k] + [max(1, path[k] // rng.choice([4, 8, 10]))] + path[k + 1 :]
+            if penny and rng.random() < 0.5:
+                # a penny stock: proceeds of a small sale can equal the commission exactly
+                path = [rng.choice([1, 1, 2, 2, 3, 4]) for _ in range(T)]
+            if zerodip and rng.random() < 0.4 and T >= 3:
+                # quoted at exactly zero for one or two dates, then quoted again
+                k = rng.randint(1, T - 2)
+                path = list(path)
+                path[k] = 0
+                if k + 2 < T or rng.random() < 0.5:
+                    path[min(k + 1, T - 1)] = 0
             if delist and rng.random() < 0.5:
                 # a delisting: the price prints 0 (maybe for several dates) and/or goes missing
                 k = rng.randint(1, T - 1)
@@ -132,8 +149,8 @@ def make_C(rng, tree=None, T=4, comm=None, spread=None, integer=True, mults=(1, 
         "DW": 200000,
         "paper": False,
     }
-    if tree in FI_TREES:
-        C["fi"] = [kinds[i] in ("cpsec", "cphedge") or kinds[i] == "strat" for i in range(N)]
+    if tree in FI_TREES or tree in MC_TREES:
+        C["fi"] = [kinds[i] in ("cpsec", "cphedge") or (kinds[i] == "strat" and tree in FI_TREES) for i in range(N)]
         cpn, cl, cs = [], [], []
         for i in range(N):
             if kinds[i] in ("cpsec", "cphedge"):
@@ -146,10 +163,13 @@ def make_C(rng, tree=None, T=4, comm=None, spread=None, integer=True, mults=(1, 
             else:
                 cpn.append([Z] * T); cl.append([NAN] * T); cs.append([NAN] * T)
         C["coupon"], C["costl"], C["costs"] = cpn, cl, cs
-        # par-like prices for fixed-income instruments
+        # par-like prices for fixed-income instruments; a hedge (swap) may stand at zero
         for i in range(N):
-            if kinds[i] != "strat":
+            if kinds[i] != "strat" and (tree in FI_TREES or kinds[i] != "sec"):
                 C["px"][i] = [[rng.choice([95, 98, 100, 100, 101, 104]), 1] for _ in range(T)]
+                if zerodip and kinds[i] in ("hedge", "cphedge") and rng.random() < 0.6:
+                    C["px"][i] = [[rng.choice([0, 0, 1, 2, 3]), 1] for _ in range(T)]
+                C["spread"][i] = [Z] * T
         C["integer"] = bool(integer)
     # same ticker in several sub-strategies shares the multiplier too
     seen = {}
@@ -166,8 +186,10 @@ WEIGHTS = [Fraction(0), Fraction(1, 4), Fraction(1, 2), Fraction(1), Fraction(-1
 class HistoryGen:
     """Online generator of operation histories for one configuration."""
 
-    def __init__(self, rng, C, nops=10, capital=None, p_defer=0.15, p_redundant=0.15, allow_illformed=False, fund_subs=True, p_unsettled=0.0, p_flow=0.23, p_custom=0.0, same_sec=False, leverage=False):
+    def __init__(self, rng, C, nops=10, capital=None, p_defer=0.15, p_redundant=0.15, allow_illformed=False, fund_subs=True, p_unsettled=0.0, p_flow=0.23, p_custom=0.0, same_sec=False, leverage=False, daytrade=0.0, zero_outlay=0.0):
         self.rng = rng
+        self.daytrade = daytrade
+        self.zero_outlay = zero_outlay
         self.C = C
         self.nops = nops
         self.capital = capital or rng.choice([1000, 1000, 2000, 5000])
@@ -273,7 +295,8 @@ class HistoryGen:
         r = rng.random()
         # date change (only onto dates where every open position has a price)
         if r < 0.22 and self.t < C["T"]:
-            ok = all(self.usable(x, self.t + 1) or pos[x - 1] == 0 for x in self.secs)
+            # (a held position may be quoted at zero; it may not go unquoted)
+            ok = all(self.C["px"][x - 1][self.t][1] != 0 or pos[x - 1] == 0 for x in self.secs)
             if ok or self.allow_illformed:
                 self.t += 1
                 return {"op": "update", "date": self.t}
@@ -317,6 +340,34 @@ class HistoryGen:
             if not self.subtree_usable(s_):
                 return None
             return {"op": "transact", "node": s_, "a": [rng.choice([10, 50, -20, 100]), 1], "b": NAN, "upd": upd}
+        if upd and self.daytrade and rng.random() < self.daytrade:
+            # a round trip in one security within the date, no refresh between the legs
+            xs = [x for x in self.secs if self.usable(x)]
+            if xs:
+                x = rng.choice(xs)
+                q = rng.choice([1, 2, 5, 10, -1, -2, -5])
+                cp = NAN
+                if rng.random() < self.p_custom:
+                    p = C["px"][x - 1][self.t - 1]
+                    cp = [p[0] * 4 + rng.choice([-3, -1, 1, 2, 5]), 4]
+                self.queue.insert(0, {"op": "transact", "node": x, "a": [-q, 1], "b": NAN, "upd": True})
+                return {"op": "transact", "node": x, "a": [q, 1], "b": cp, "upd": True}
+        if upd and self.zero_outlay and rng.random() < self.zero_outlay:
+            # a sale whose proceeds equal the commission exactly: full outlay zero, fee not
+            cands = []
+            for x in self.secs:
+                if not self.usable(x) or C["spread"][x - 1][self.t - 1][0] != 0:
+                    continue
+                pm = Fraction(*C["px"][x - 1][self.t - 1]) * Fraction(*C["mult"][x - 1])
+                m = C["comm"][C["par"][x - 1] - 1]
+                a_, b_ = Fraction(*m["a"]), Fraction(*m["b"])
+                for q in (1, 2, 3, 4, 5, 8, 10):
+                    fee = {"zero": Fraction(0), "fix": a_, "unit": a_ * q, "tier": max(a_, b_ * q), "prop": a_ * q * pm}[m["k"]]
+                    if fee != 0 and fee == q * pm:
+                        cands.append((x, q))
+            if cands:
+                x, q = rng.choice(cands)
+                return {"op": "transact", "node": x, "a": [-q, 1], "b": NAN, "upd": True}
         if self.leverage and rng.random() < 0.35:
             c = rng.choice(range(2, self.N + 1))
             if self.subtree_usable(c):
